@@ -65,11 +65,24 @@ def spawn(args, hashseed):
     env["PYTHONDONTWRITEBYTECODE"] = "1"
     env["PYTHONPATH"] = os.path.join(REPO, "python") + os.pathsep + VERIF
     env["VERIF_REPO"] = REPO
+    cwd = None
+    variant = args.get("env_variant")
+    if variant:
+        # the same runs in a differently configured process: locale, default encoding, time zone, working directory
+        env.update(ENV_VARIANTS[variant % len(ENV_VARIANTS)][0])
+        cwd = ENV_VARIANTS[variant % len(ENV_VARIANTS)][1]
     argpath = args["out"] + ".args"
     with open(argpath, "w") as f:
         json.dump(args, f)
-    return subprocess.Popen([sys.executable, os.path.join(VERIF, "check.py"), "--worker", argpath], env=env,
+    return subprocess.Popen([sys.executable, os.path.join(VERIF, "check.py"), "--worker", argpath], env=env, cwd=cwd,
                             stdout=subprocess.PIPE, stderr=subprocess.PIPE, text=True)
+
+
+ENV_VARIANTS = [
+    ({}, None),
+    ({"LC_ALL": "C", "LANG": "C", "PYTHONUTF8": "0", "TZ": "Pacific/Kiritimati", "PYTHONIOENCODING": "ascii:backslashreplace", "COLUMNS": "40"}, "/"),
+    ({"LC_ALL": "C.UTF-8", "LANG": "tr_TR.UTF-8", "PYTHONUTF8": "1", "TZ": "America/St_Johns", "HOME": "/nonexistent"}, "/tmp"),
+]
 
 
 def run_workers(jobs, wall_s):
